@@ -3,12 +3,15 @@
 package main
 
 import (
+	"context"
 	"fmt"
 	"os"
 	"strings"
 
 	"github.com/awslabs/operatorpkg/object"
+	apierrors "k8s.io/apimachinery/pkg/api/errors"
 	metav1 "k8s.io/apimachinery/pkg/apis/meta/v1"
+	"k8s.io/apimachinery/pkg/runtime/schema"
 	"k8s.io/apimachinery/pkg/types"
 	clock "k8s.io/utils/clock/testing"
 	"sigs.k8s.io/controller-runtime/pkg/client"
@@ -89,9 +92,10 @@ func runTracker(c *kit.Ctx, ops []int) {
 	c.AddCase(fmt.Sprintf("CaseT %s %s", kit.GList(gops), kit.GList(gobs)), tcase{"tracker", jops, jobs}, key)
 }
 
-var sopNames = []string{"RecordSuccess", "RecordFailure", "PoolChanged", "Crash", "Reconcile", "ClassChanged"}
+var sopNames = []string{"RecordSuccess", "RecordFailure", "PoolChanged", "Crash", "Reconcile", "ClassChanged", "RecordSuccessConflict", "RecordFailureConflict"}
 
 type sysEnv struct {
+	failPatch bool // reject the next NodePool status patch with a Conflict
 	c     client.Client
 	clk   *clock.FakeClock
 	cp    *fake.CloudProvider
@@ -103,7 +107,13 @@ type sysEnv struct {
 func newSys() *sysEnv {
 	ctx := kit.Context()
 	e := &sysEnv{clk: clock.NewFakeClock(time.Unix(1_700_000_000, 0)), cp: fake.NewCloudProvider(), state: nodepoolhealth.NewState()}
-	e.c = kit.NewClient(interceptor.Funcs{})
+	e.c = kit.NewClient(interceptor.Funcs{SubResourcePatch: func(ctx context.Context, cl client.Client, sub string, obj client.Object, patch client.Patch, opts ...client.SubResourcePatchOption) error {
+		if _, ok := obj.(*v1.NodePool); ok && e.failPatch {
+			e.failPatch = false
+			return apierrors.NewConflict(schema.GroupResource{Group: "karpenter.sh", Resource: "nodepools"}, obj.GetName(), fmt.Errorf("injected conflict"))
+		}
+		return cl.SubResource(sub).Patch(ctx, obj, patch, opts...)
+	}})
 	nodeClass := test.NodeClass()
 	nodeClass.Name = "nodeclass"
 	nodeClass.Generation = 1
@@ -177,6 +187,28 @@ func runSys(c *kit.Ctx, ops []int) {
 			e.state = nodepoolhealth.NewState()
 		case 4:
 			e.reconcile()
+		case 6, 7:
+			// the status patch, if one is issued, is rejected once: the path must return the error without recording
+			e.failPatch = true
+			var err error
+			if o == 6 {
+				err = lifecycle.VerifRecordRegistrationSuccess(ctx, e.c, e.clk, e.state, e.nc)
+			} else {
+				err = lifecycle.VerifRecordRegistrationFailure(ctx, e.c, e.clk, e.state, e.nc)
+			}
+			if e.failPatch { // no patch was issued: the outcome was recorded normally
+				e.failPatch = false
+				if err != nil {
+					panic(err)
+				}
+				records++
+				c.Count("system:conflict-op:no-patch-issued")
+			} else {
+				if err == nil {
+					panic("injected conflict was swallowed")
+				}
+				c.Count("system:conflict-op:patch-rejected")
+			}
 		case 5:
 			nodeClass := &testv1alpha1.TestNodeClass{}
 			if err := e.c.Get(ctx, client.ObjectKey{Name: "nodeclass"}, nodeClass); err != nil {
@@ -230,10 +262,12 @@ func main() {
 	// corpus first: the history of F1
 	runTracker(c, []int{0, 0, 0, 0, 1, 1, 0})
 	runSys(c, []int{0, 0, 0, 0, 1, 1, 0, 1})
+	runSys(c, []int{1, 0, 0, 7, 1, 0}) // seeded C20-3: failure whose False patch is rejected once, then retried
 	runSys(c, []int{1, 5, 1, 1}) // seeded C20-1: NodeClass change while the condition is already Unknown
 	enumerate(2, tfLen, func(s []int) { runTracker(c, s) })
 	enumerate(6, mixLen, func(s []int) { runTracker(c, s) })
 	enumerate(6, sysLen, func(s []int) { runSys(c, s) })
+	enumerate(8, sysLen-1, func(s []int) { runSys(c, s) })
 	for i := 0; i < nRand; i++ {
 		r := c.Rand.Fork()
 		n := r.Range(6, 16)
@@ -251,12 +285,12 @@ func main() {
 			if r.Chance(3, 4) {
 				t[j] = r.Intn(2)
 			} else {
-				t[j] = r.Intn(6)
+				t[j] = r.Intn(8)
 			}
 		}
 		runSys(c, t)
 	}
-	c.Meta.Rule = fmt.Sprintf("exhaustive: all {T,F} sequences of length %d, all sequences of length %d over 6 tracker ops, all sequences of length %d over 6 system ops; plus %d random longer ones. non-trivial = the ring buffer wrapped (more than 4 consecutive updates) / at least 3 outcomes recorded; distinct by op sequence", tfLen, mixLen, sysLen, nRand)
+	c.Meta.Rule = fmt.Sprintf("exhaustive: all {T,F} sequences of length %d, all sequences of length %d over 6 tracker ops, all sequences of length %d over the 6 fault-free system ops and of length one less over all 8 (incl. a rejected status patch on either record path); plus %d random longer ones. non-trivial = the ring buffer wrapped (more than 4 consecutive updates) / at least 3 outcomes recorded; distinct by op sequence", tfLen, mixLen, sysLen, nRand)
 	c.Meta.Exhaustive = true
 	c.Meta.Corr = []string{"nodepoolhealth.State.{Update,SetStatus,Status,DryRun} = C20.Model.{tstep,tstatus,dry_run}",
 		"lifecycle.{Registration,Liveness}.updateNodePoolRegistrationHealth + registrationhealth.Reconcile = C20.Model.step"}
